@@ -359,7 +359,48 @@ BUILTIN_LIKE = {"len", "list", "tuple", "range", "sorted", "sum", "min", "max", 
                 "True", "False", "None", "ValueError", "TypeError", "RuntimeError", "AssertionError", "KeyError", "IndexError"}
 
 
-def compare(cur_fn, ref_fn, cur_module_functions, ref_module_functions, cur_methods=None, ref_methods=None):
+def signatures(prog):
+    """{function name: (positional parameter names, {name: constant default})} for the top-level functions of the program whose name is
+    unique -- used to write a library call in one canonical way (arguments by name, defaults left out)"""
+    seen = {}
+    for m in prog.modules.values():
+        for n in m.tree.body:
+            if isinstance(n, ast.FunctionDef):
+                seen.setdefault(n.name, []).append(n)
+    out = {}
+    for name, defs in seen.items():
+        if len({ast.dump(d.args) for d in defs}) != 1:
+            continue
+        a = defs[0].args
+        if a.vararg or a.kwarg:
+            continue
+        params = [x.arg for x in a.posonlyargs + a.args]
+        dflt = {}
+        for x, d in list(zip(params[len(params) - len(a.defaults):], a.defaults)) + [(k.arg, d) for k, d in zip(a.kwonlyargs, a.kw_defaults) if d is not None]:
+            if isinstance(d, ast.Constant):
+                dflt[x] = d.value
+        out[name] = (params, dflt)
+    return out
+
+
+def canon_value(v, sigs):
+    """a library call term with its arguments by name and those equal to the callee's constant default left out"""
+    if isinstance(v, Term):
+        if v._n == "call" and v._a and isinstance(v._a[0], Term) and not v._a[0]._a and v._a[0]._n in sigs:
+            params, dflt = sigs[v._a[0]._n]
+            pos = [canon_value(x, sigs) for x in v._a[1:]]
+            kw = {k: canon_value(x, sigs) for k, x in v._k}
+            if len(pos) <= len(params) and not (set(params[:len(pos)]) & set(kw)):
+                kw.update(dict(zip(params, pos)))
+                kw = {k: x for k, x in kw.items() if not (k in dflt and (x is dflt[k] or (x == dflt[k] and type(x) is type(dflt[k]))))}
+                return Term("call", (v._a[0],), tuple(sorted(kw.items(), key=lambda kv: kv[0])))
+        return Term(v._n, tuple(canon_value(x, sigs) for x in v._a), tuple((k, canon_value(x, sigs)) for k, x in v._k))
+    if isinstance(v, tuple):
+        return tuple(canon_value(x, sigs) for x in v)
+    return v
+
+
+def compare(cur_fn, ref_fn, cur_module_functions, ref_module_functions, cur_methods=None, ref_methods=None, sigs=None):
     """-> (True | False | None, detail)"""
     uses = option_uses([cur_fn, ref_fn] + [d for d in cur_module_functions.values()] + [d for d in ref_module_functions.values()])
     n = 0
@@ -372,6 +413,9 @@ def compare(cur_fn, ref_fn, cur_module_functions, ref_module_functions, cur_meth
             return None, "cannot fold the helper with options %s: %s" % (shown, e)
         except RecursionError:
             return None, "recursion while folding"
+        if sigs:
+            a = (canon_value(a[0], sigs),) + tuple(a[1:])
+            b = (canon_value(b[0], sigs),) + tuple(b[1:])
         if a != b:
             what = "returns / raises" if a[0] != b[0] else ("draws random numbers" if a[1] != b[1] else "leaves the options")
             i = 0 if a[0] != b[0] else (1 if a[1] != b[1] else 2)
@@ -419,4 +463,4 @@ def compare_method(prog, ci, mname):
     if ast.dump(cur_fn) == ast.dump(ref_fn) and \
             {k: ast.dump(v) for k, v in module_level_functions(ci.module).items()} == {k: ast.dump(v) for k, v in module_level_functions(rci.module).items()}:
         return True, "identical to the reviewed helper"
-    return compare(cur_fn, ref_fn, module_level_functions(ci.module), module_level_functions(rci.module))
+    return compare(cur_fn, ref_fn, module_level_functions(ci.module), module_level_functions(rci.module), sigs=signatures(ref))
